@@ -32,6 +32,7 @@ import (
 	"time"
 
 	"github.com/onsi/gomega"
+	"github.com/synnaxlabs/cesium"
 	kit "github.com/synnaxlabs/synnax/internal/verifkit"
 	"github.com/synnaxlabs/synnax/pkg/distribution"
 	"github.com/synnaxlabs/synnax/pkg/distribution/channel"
@@ -40,6 +41,7 @@ import (
 	"github.com/synnaxlabs/synnax/pkg/distribution/node"
 	"github.com/synnaxlabs/synnax/pkg/storage/ts"
 	"github.com/synnaxlabs/x/gorp"
+	xfs "github.com/synnaxlabs/x/io/fs"
 	"github.com/synnaxlabs/x/telem"
 )
 
@@ -156,6 +158,7 @@ func setup() {
 }
 
 type sim struct {
+	closed bool
 	ctx       context.Context
 	sc        Script
 	rep       *kit.Report
@@ -392,8 +395,11 @@ func (s *sim) quiesce(want table) error {
 // engine enumerates the channels node i's time-series engine holds, by probing every key
 // the counters of any leaseholder (and the free counter) can have handed out so far.
 func (s *sim) engine(i int) map[channel.Key]ts.Channel {
+	return s.engineOf(s.nodes[i].Storage.TS)
+}
+
+func (s *sim) engineOf(db *ts.DB) map[channel.Key]ts.Channel {
 	out := map[channel.Key]ts.Channel{}
-	db := s.nodes[i].Storage.TS
 	lhs := []node.Key{freeLH}
 	for j := 1; j <= s.sc.N; j++ {
 		lhs = append(lhs, node.Key(j))
@@ -1106,6 +1112,10 @@ func (s *sim) afterFailure(step int, before table, notx bool) error {
 // layer has been closed, panics the whole process with "pebble: closed". That shutdown race
 // is outside this property; the pause keeps it from killing the test process.
 func (s *sim) closeCluster() {
+	if s.closed {
+		return
+	}
+	s.closed = true
 	keys := make([]int, 0, len(s.cl.Nodes))
 	for k := range s.cl.Nodes {
 		keys = append(keys, int(k))
@@ -1130,6 +1140,54 @@ func (s *sim) closeCluster() {
 			s.rep.Class("cluster-close-error")
 		}
 	}
+}
+
+// restartEngines closes the cluster and reopens every node's time-series engine on the
+// storage it left behind ("restarts of a node's services"): the restarted engine must hold
+// exactly the channels it held before the restart - which crossStore has just matched against
+// the metadata - with the same key, name, data type, index and virtual flag. In particular a
+// channel deleted during the history must not come back.
+func (s *sim) restartEngines(step int) error {
+	type snap struct {
+		fs     xfs.FS
+		before map[channel.Key]ts.Channel
+	}
+	snaps := map[int]snap{}
+	for i := 1; i <= s.sc.N; i++ {
+		snaps[i] = snap{fs: s.nodes[i].Storage.TS.VerifFS(), before: s.engine(i)}
+	}
+	s.closeCluster()
+	for i := 1; i <= s.sc.N; i++ {
+		db, err := cesium.Open(s.ctx, "", cesium.WithFS(snaps[i].fs))
+		if err != nil {
+			return s.violation("engine-restart-failed", "step %d: reopening node %d's time-series engine on its storage after the history: %v", step, i, err)
+		}
+		after := s.engineOf(db)
+		cerr := db.Close()
+		for k, c := range after {
+			b, ok := snaps[i].before[k]
+			if !ok {
+				what := "never held by this engine before the restart"
+				if _, del := s.deleted[k]; del {
+					what = "deleted during the history (" + s.deletedBy[k] + ")"
+				}
+				return s.violation("engine-restart-resurrects-channel", "step %d: after restarting node %d's time-series engine on the same storage it holds channel %d (name=%q dt=%s virtual=%v), which was %s", step, i, k, c.Name, c.DataType, c.Virtual, what)
+			}
+			if b.Name != c.Name || b.DataType != c.DataType || b.Index != c.Index || b.Virtual != c.Virtual || b.IsIndex != c.IsIndex {
+				return s.violation("engine-restart-changes-channel", "step %d: node %d's engine holds channel %d as %+v after a restart, %+v before", step, i, k, c, b)
+			}
+		}
+		for k, b := range snaps[i].before {
+			if _, ok := after[k]; !ok {
+				return s.violation("engine-restart-loses-channel", "step %d: node %d's engine no longer holds channel %d (name=%q) after a restart on the same storage", step, i, k, b.Name)
+			}
+		}
+		if cerr != nil {
+			s.rep.Class("restarted-engine-close-error")
+		}
+	}
+	s.rep.Class("engines-restarted-on-same-storage")
+	return nil
 }
 
 // ---------------------------------------------------------------- case
@@ -1239,6 +1297,9 @@ func execute(sc Script, rep *kit.Report) (err error) {
 	}
 	// final sweep of clause (3) over everything deleted during the history
 	if e := s.checkDeleted(len(sc.Ops), s.deleted.keys()); e != nil {
+		return fail(e)
+	}
+	if e := s.restartEngines(len(sc.Ops)); e != nil {
 		return fail(e)
 	}
 	rep.Add("requests", int64(len(sc.Ops)))
